@@ -369,6 +369,19 @@ func callU(f func() (*url.Url, error)) (Res, *url.Url) {
 	return r, uu
 }
 
+// stringOf reads (*Url).String() - the observation point of C17 / C18; a panic shows as a value no specification predicts.
+func stringOf(u *url.Url, href proj.Text) (t proj.Text) {
+	defer func() {
+		if recover() != nil {
+			t = proj.FromGo("<String() panicked>")
+		}
+	}()
+	if u == nil {
+		return href
+	}
+	return proj.FromGo(u.String())
+}
+
 func parseU(p url.Parser, in string, bs []proj.Text) (Res, *url.Url) {
 	return callU(func() (*url.Url, error) {
 		if len(bs) == 0 {
@@ -480,7 +493,13 @@ func idemEvents(in proj.Text, bs []proj.Text, profs []string, grammar bool) []in
 		var yu *url.Url
 		e.Y, yu = parseU(p, s, bs)
 		if !e.Y.Fail {
-			e.Z, _ = parseU(p, e.Y.G.Href.ToGo(), nil)
+			// the property is stated on String(): the canonical form IS what String() returns, and that string is canonicalized again
+			e.Y.G.Href = stringOf(yu, e.Y.G.Href)
+			var zu *url.Url
+			e.Z, zu = parseU(p, e.Y.G.Href.ToGo(), nil)
+			if !e.Z.Fail {
+				e.Z.G.Href = stringOf(zu, e.Z.G.Href)
+			}
 			func() {
 				defer func() { recover() }()
 				e.YP = paramsOf(yu)
@@ -509,7 +528,10 @@ func classEvents(sp []proj.Text, std bool, profs []string) []interface{} {
 		p := parserFor(pn)
 		e := ClassEvent{K: "class", Prof: pn, Std: std, Sp: sp}
 		for _, s := range sp {
-			r, _ := parseU(p, s.ToGo(), nil)
+			r, ru := parseU(p, s.ToGo(), nil)
+			if !r.Fail {
+				r.G.Href = stringOf(ru, r.G.Href)
+			}
 			e.Outs = append(e.Outs, r)
 		}
 		out = append(out, e)
